@@ -116,15 +116,16 @@ Qed.
 
 Lemma rt_msg : forall sender m,
   In m (all_msgs n) ->
-  msg_flat_okb ev sender m = true -> msg_dom m = true ->
+  msg_flat_okb ev sender m = true -> msg_dom m = true -> (m_size m <=? 8) = true ->
   load_msg now ev' sender (save_msg m) = Ok m.
 Proof.
-  intros sender m Hin Hok Hd.
+  intros sender m Hin Hok Hd Hsz8.
   unfold msg_flat_okb in Hok. andb_split Hok.
   unfold msg_dom in Hd. andb_split Hd.
   unfold load_msg, save_msg; cbn [pm_ent pm_signals pm_payload pm_size pm_id pm_static pm_has_static pm_prio pm_bo pm_cycle pm_send pm_delay pm_startdelay pm_receivers pm_attrs].
   rewrite load_save_entity by auto. cbn [bind].
   rewrite !u32_id by auto.
+  apply Z.leb_le in Hsz8. destruct (m_size m >? 8) eqn:E8; [apply Z.gtb_lt in E8; lia|].
   pose proof (Hsigs m Hin) as Hs. unfold sigs_rt in Hs. rewrite Hs. cbn [bind].
   assert (Hrecs : foldM (load_receiver ev' sender) []
                     (map (fun r => {| prc_node := fst r; prc_number := u32 (snd r) |}) (m_receivers m)) = Ok (m_receivers m)).
@@ -195,7 +196,8 @@ Proof.
     intros pre m post E.
     assert (Hmin : In m (if_msgs i)) by (rewrite E; apply in_or_app; right; apply in_eq).
     rewrite forallb_forall in H0, Hd0. specialize (H0 m Hmin). unfold msg_okb in H0. apply andb_true_iff in H0. destruct H0 as [Hflat _].
-    rewrite (rt_msg _ m (all_msgs_In i m Hi Hmin) Hflat (Hd0 m Hmin)). cbn [bind].
+    rewrite forallb_forall in Hsz.
+    rewrite (rt_msg _ m (all_msgs_In i m Hi Hmin) Hflat (Hd0 m Hmin) (Hsz m Hmin)). cbn [bind].
     rewrite E in H1, H2, Hst. eapply rt_add_sent_message; eauto. }
   rewrite Hm. cbn [bind]. destruct i; reflexivity.
 Qed.
